@@ -206,26 +206,22 @@ def run_waits(ctx, desc):
         elif status != "returned" or val is None or val.code != code or val is not node.emcy.log[-1]:
             ctx.violation("emcy-wait-nofilter", f"wait() ended {status} with {val!r} after frame {code:#x}", case)
         # 2. filter: a non-matching frame first, then the matching one
-        want = rng.choice([0x8130, 0x2310, 0x0000, 0xFF01])
-        wrong = want ^ 0x0100
+        for want in (0x0000, rng.choice([0x8130, 0x2310, 0xFF01, 0x00FF])):
+            wrong = want ^ 0x0100
 
-        def deliver():
-            send(wrong)
-            for _ in range(3000):
-                if cond.waiting.is_set():
-                    break
-                time.sleep(0.001)
-            with cond:
-                pass
-            send(want, 7)
-        status, val = waits.run_waiter(lambda: node.emcy.wait(want, 4), cond, deliver)
-        ctx.count("wait_cases")
-        ctx.case(("wait-filter", hex(want)))
-        case = {"workload": "waits", "kind": "filter", "want": want, "first": wrong}
-        if status in ("hung", "never-waited"):
-            ctx.inconc(f"emcy.wait(filter): {status}", case)
-        elif status != "returned" or val is None or val.code != want or val.register != 7:
-            ctx.violation("emcy-wait-filter", f"wait({want:#x}) ended {status} with {val!r} (code {getattr(val, 'code', None)})", case)
+            def deliver():
+                n = cond.waits
+                send(wrong)
+                cond.reentered(n)       # the waiter has looked at the first frame and waits again (or has returned)
+                send(want, 7)
+            status, val = waits.run_waiter(lambda: node.emcy.wait(want, 4), cond, deliver)
+            ctx.count("wait_cases")
+            ctx.case(("wait-filter", hex(want)))
+            case = {"workload": "waits", "kind": "filter", "want": want, "first": wrong}
+            if status in ("hung", "never-waited"):
+                ctx.inconc(f"emcy.wait(filter): {status}", case)
+            elif status != "returned" or val is None or val.code != want or val.register != 7:
+                ctx.violation("emcy-wait-filter", f"wait({want:#x}) ended {status} with {val!r} (code {getattr(val, 'code', None)})", case)
         # 3. nothing arrives: None after the time-out
         status, val = waits.run_waiter(lambda: node.emcy.wait(None, 0.03), cond, None)
         ctx.count("wait_cases")
